@@ -12,6 +12,7 @@ Definition agree {A} (s : A -> option bool) (i : A -> res bool) : Prop := forall
 Section Gen.
   Variable scandir : path -> dirc -> dirc.
   Hypothesis scandir_perm : forall p l, Permutation (scandir p l) l.
+  Variable O : oracles.
   Variable ps : elem -> option bool.        (* declarative prune *)
   Variable pi : elem -> res bool.           (* prune matcher of the code *)
   Hypothesis prune_agree : agree ps pi.
@@ -25,26 +26,29 @@ Section Gen.
         let e := Elem (rel ++ [fst p]) (abs ++ [fst p]) (snd p) in
         let here := if in_min mn d then [e] else [] in
         let below :=
-          if negb (at_max mx d) && is_dir (snd p)
-          then match ps e with
-               | Some false => walk ps mn mx (snd p) (rel ++ [fst p]) (abs ++ [fst p]) (S d)
-               | Some true => Some []
-               | None => None
-               end
-          else Some [] in
+          match (if at_max mx d then Some false else dir_test_spec O (snd p) (abs ++ [fst p])) with
+          | Some true =>
+              match ps e with
+              | Some false => walk O ps mn mx (snd p) (rel ++ [fst p]) (abs ++ [fst p]) (S d)
+              | Some true => Some []
+              | None => None
+              end
+          | Some false => Some []
+          | None => None
+          end in
         match below, walk_list es' rel abs d with
         | Some b, Some r => Some (here ++ b ++ r)
         | _, _ => None
         end
     end.
 
-  Lemma walk_Dir : forall es rel abs d, walk ps mn mx (Dir es) rel abs d = walk_list es rel abs d.
+  Lemma walk_Dir : forall es rel abs d, walk O ps mn mx (Dir es) rel abs d = walk_list es rel abs d.
   Proof.
     intros es rel abs d. cbn [walk]. induction es as [|p es IH]; [reflexivity|].
     cbn [walk_list]. rewrite <- IH. reflexivity.
   Qed.
 
-  Lemma walk_children : forall t rel abs d, walk ps mn mx t rel abs d = walk_list (children t) rel abs d.
+  Lemma walk_children : forall t rel abs d, walk O ps mn mx t rel abs d = walk_list (children t) rel abs d.
   Proof.
     induction t as [c|es _| |t IH] using tree_ind'; intros rel abs d.
     - reflexivity.
@@ -60,13 +64,13 @@ Section Gen.
     induction 1 as [|p es es' HP IH|p q es|es1 es2 es3 H1 IH1 H2 IH2]; intros rel abs d L H.
     - exists L. split; [exact H | apply Permutation_refl].
     - cbn [walk_list] in *. cbv zeta in *.
-      destruct (if negb (at_max mx d) && is_dir (snd p) then _ else _) as [b|]; [|discriminate].
+      destruct (match (if at_max mx d then Some false else dir_test_spec O (snd p) (abs ++ [fst p])) with Some true => _ | Some false => _ | None => _ end) as [b|]; [|discriminate].
       destruct (walk_list es rel abs d) as [r|] eqn:Er; [|discriminate]. injection H as <-.
       destruct (IH rel abs d r Er) as [r' [-> Hp]]. eexists. split; [reflexivity|].
       apply Permutation_app_head, Permutation_app_head. exact Hp.
     - cbn [walk_list] in *. cbv zeta in *.
-      destruct (if negb (at_max mx d) && is_dir (snd q) then _ else _) as [bq|]; [|discriminate].
-      destruct (if negb (at_max mx d) && is_dir (snd p) then _ else _) as [bp|]; [|discriminate].
+      destruct (match (if at_max mx d then Some false else dir_test_spec O (snd q) (abs ++ [fst q])) with Some true => _ | Some false => _ | None => _ end) as [bq|]; [|discriminate].
+      destruct (match (if at_max mx d then Some false else dir_test_spec O (snd p) (abs ++ [fst p])) with Some true => _ | Some false => _ | None => _ end) as [bp|]; [|discriminate].
       destruct (walk_list es rel abs d) as [r|]; [|discriminate]. injection H as <-.
       eexists. split; [reflexivity|].
       rewrite !app_assoc. apply Permutation_app_tail. rewrite <- !app_assoc.
@@ -76,7 +80,7 @@ Section Gen.
   Qed.
 
   Definition walk_item (q : qitem) : option (list elem) :=
-    walk ps mn mx (q_dir q) (q_rel q) (q_abs q) (q_depth q).
+    walk O ps mn mx (q_dir q) (q_rel q) (q_abs q) (q_depth q).
 
   Definition qsize (qs : list qitem) : nat := fold_right (fun q acc => tsize (q_dir q) + acc) 0 qs.
 
@@ -91,7 +95,7 @@ Section Gen.
   Lemma scan_dir_spec : forall es rel abs d L,
     walk_list es rel abs d = Some L ->
     exists ys qs Ls,
-      scan_dir pi (in_min mn d) (negb (at_max mx d)) rel abs d es = (ys, qs, None)
+      scan_dir O pi (in_min mn d) (negb (at_max mx d)) rel abs d es = (ys, qs, None)
       /\ Forall2 (fun q l => walk_item q = Some l) qs Ls
       /\ Permutation L (ys ++ concat Ls)
       /\ qsize qs <= dsize es.
@@ -100,7 +104,15 @@ Section Gen.
     - cbn in H. injection H as <-. exists [], [], []. cbn. repeat split; constructor.
     - cbn [walk_list fst snd] in H. cbv zeta in H. cbn [scan_dir].
       change (dsize ((n, c) :: es)) with (tsize c + dsize es).
-      destruct (negb (at_max mx d) && is_dir c) eqn:Eg.
+      assert (Hdt : (if negb (at_max mx d) then dir_test O c (abs ++ [n]) else Ok false)
+                    = match (if at_max mx d then Some false else dir_test_spec O c (abs ++ [n])) with
+                      | Some b => Ok b
+                      | None => (if negb (at_max mx d) then dir_test O c (abs ++ [n]) else Ok false)
+                      end).
+      { destruct (at_max mx d); cbn [negb]; [reflexivity|]. unfold dir_test, dir_test_spec.
+        destruct (resolve c) as [[?|?|?]|]; try reflexivity. destruct (link_error O (abs ++ [n])) as [[|]|]; reflexivity. }
+      rewrite Hdt. clear Hdt.
+      destruct (if at_max mx d then Some false else dir_test_spec O c (abs ++ [n])) as [[|]|] eqn:Eg; [| |discriminate].
       + destruct (ps (Elem (rel ++ [n]) (abs ++ [n]) c)) as [[|]|] eqn:Ep; [| |discriminate].
         * (* pruned *)
           rewrite (prune_agree _ _ Ep).
@@ -110,7 +122,7 @@ Section Gen.
           repeat split; [exact F | | lia]. cbn [app]. rewrite <- app_assoc. apply Permutation_app_head. exact P.
         * (* entered *)
           rewrite (prune_agree _ _ Ep).
-          destruct (walk ps mn mx c (rel ++ [n]) (abs ++ [n]) (S d)) as [b|] eqn:Eb; [|discriminate].
+          destruct (walk O ps mn mx c (rel ++ [n]) (abs ++ [n]) (S d)) as [b|] eqn:Eb; [|discriminate].
           destruct (walk_list es rel abs d) as [r|] eqn:Er; [|discriminate]. injection H as <-.
           destruct (IH rel abs d r Er) as (ys & qs & Ls & Es & F & P & Hsz). rewrite Es.
           exists ((if in_min mn d then [Elem (rel ++ [n]) (abs ++ [n]) c] else []) ++ ys),
@@ -134,7 +146,7 @@ Section Gen.
   Lemma gen_loop_spec : forall fuel queue Ls,
     qsize queue <= fuel ->
     Forall2 (fun q l => walk_item q = Some l) queue Ls ->
-    exists L', gen_loop scandir pi mn mx fuel queue = (L', None) /\ Permutation L' (concat Ls).
+    exists L', gen_loop scandir O pi mn mx fuel queue = (L', None) /\ Permutation L' (concat Ls).
   Proof.
     induction fuel as [|fuel IH]; intros queue Ls Hf F.
     - destruct queue as [|q rest].
@@ -161,8 +173,8 @@ Section Gen.
 
   (** -recursive: the generated files are a permutation of the declarative set *)
   Theorem gen_recursive_spec : forall root abs L,
-    walk ps mn mx root [] abs 0 = Some L ->
-    exists L', gen_loop scandir pi mn mx (tsize root) [QItem [] abs root 0] = (L', None) /\ Permutation L' L.
+    walk O ps mn mx root [] abs 0 = Some L ->
+    exists L', gen_loop scandir O pi mn mx (tsize root) [QItem [] abs root 0] = (L', None) /\ Permutation L' L.
   Proof.
     intros root abs L H.
     destruct (gen_loop_spec (tsize root) [QItem [] abs root 0] [L]) as [L' [E P]].
